@@ -261,8 +261,8 @@ def run(ctx):
             continue
         st = ix["struct"]
         ps = [p.replace("(", "").replace(")", "") for p in pred_of(st, "marginfi_account")]
-        w = want.replace("(", "").replace(")", "")
-        ctx.inst("C10.R3", "account-state/" + ixn, w in ps, "%s requires %s" % (ixn, "a clean account (no receivership/flash loan/disabled)" if ixn.startswith("start") else "an account in receivership (not in flash loan, not disabled)"), ps, "%s:%d" % (st.file, st.line))
+        ws = [w_.replace("(", "").replace(")", "") for w_ in want.split("&&")]      # every conjunct is its own normalised constraint
+        ctx.inst("C10.R3", "account-state/" + ixn, all(w_ in ps for w_ in ws), "%s requires %s" % (ixn, "a clean account (no receivership/flash loan/disabled)" if ixn.startswith("start") else "an account in receivership (not in flash loan, not disabled)"), ps, "%s:%d" % (st.file, st.line))
         mf = st.field("marginfi_account")
         rb = [c for c in (mf.cons if mf else []) if c.kind == "keyeq" and c.f == "liquidation_record" and c.b == "liquidation_record"]
         ctx.inst("C10.R3", "record-bound/" + ixn, bool(rb), "the liquidation record is the account's own record", "", "%s:%d" % (st.file, st.line))
